@@ -333,3 +333,7 @@ def run(chk, facts, tier):
     c20.dispatch(chk, facts)
     from rules import c02_ops
     c02_ops.check(chk, facts)
+    # a policy's scope is evaluated as the expression the language gives it (shared with C01): `action in []` in the scope
+    # means what it means in a condition
+    from rules import c01_condition
+    c01_condition.check(chk, facts)
